@@ -387,6 +387,7 @@ def _check_activation(run, site, snap, expected_order, ev0, calls, failures, opi
         what = "set order" if site.endswith("do") and "shuffle" not in site or "map" in site else "the order shuffle() produces from the same generator state"
         failures.append({"key": f"C04/{site}/order", "op": opi,
                          "what": f"{site} called agents in the order {log}; required: {what} = {expected_order} (minus agents gone before their turn)"})
+        ordered = False   # turns cannot be placed on the required order any more: judge skipped members by the whole call
     # every member not removed from its model before its turn is called
     end = len(run.events)
     pos = {u: i for i, u in enumerate(expected_order)}
